@@ -14,6 +14,18 @@ theorem step_self (t : Tables) (ev : RouterEvent) : (t.step ev).self = t.self :=
   | adv w entries => simp only [Tables.step, Tables.stepDirty]; cases pget t.nbrs w <;> rfl
   | dead w => simp only [Tables.step, Tables.stepDirty]; cases pget t.nbrs w <;> rfl
   | papply x reset adds rems => rfl
+  | sweep ws =>
+    simp only [Tables.step, Tables.stepDirty, sweep_fold_fst]
+    have : ∀ (ws : List Nat) (t : Tables), (ws.foldl (fun t w => t.step (.dead w)) t).self = t.self := by
+      intro ws
+      induction ws with
+      | nil => intro t; rfl
+      | cons w r ih =>
+        intro t
+        simp only [List.foldl_cons]
+        rw [ih]
+        simp only [Tables.step, Tables.stepDirty]; cases pget t.nbrs w <;> rfl
+    exact this ws t
 
 theorem recvPing_clean {nbrs : List (Nat × Nbr)} {w face : Nat} {active : Bool}
     (hc : (recvPing nbrs w face active).2 = false) {h : Nat} (hs : (pget nbrs h).isSome) :
@@ -50,7 +62,8 @@ theorem pfxApply_clean {pfx : List (Nat × List Nat)} {x : Nat} {reset : Bool} {
   · simp [hd]
 
 /-- if the code does not start `fibUpdate`, the prescription has not changed -/
-theorem clean_same_prescription (prefixOf : Nat → Nat) {t : Tables} (inv : NbrInv t) (ev : RouterEvent)
+theorem clean_same_prescription_basic (prefixOf : Nat → Nat) {t : Tables} (inv : NbrInv t) (ev : RouterEvent)
+    (hns : ∀ ws, ev ≠ .sweep ws)
     (hc : (t.stepDirty ev).2 = false) : prescription prefixOf (t.step ev) = prescription prefixOf t := by
   have inv' := nbrInv_step inv ev
   have ok := nbrOk_of_inv inv
@@ -109,6 +122,37 @@ theorem clean_same_prescription (prefixOf : Nat → Nat) {t : Tables} (inv : Nbr
       simp only [announcedS, Tables.step, Tables.stepDirty]
       exact pfxApply_clean hc d
     · intro _ _ _; exact ⟨rfl, fun _ => rfl⟩
+  | sweep ws => exact absurd rfl (hns ws)
+
+theorem sweep_fold_clean (prefixOf : Nat → Nat) (ws : List Nat) : ∀ (t : Tables) (d : Bool), NbrInv t →
+    (ws.foldl (fun acc w => ((Tables.deadOne acc.1 w).1, acc.2 || (Tables.deadOne acc.1 w).2)) (t, d)).2 = false →
+    d = false ∧ prescription prefixOf
+      (ws.foldl (fun acc w => ((Tables.deadOne acc.1 w).1, acc.2 || (Tables.deadOne acc.1 w).2)) (t, d)).1 =
+      prescription prefixOf t := by
+  induction ws with
+  | nil => intro t d _ h; exact ⟨h, rfl⟩
+  | cons w r ih =>
+    intro t d inv h
+    simp only [List.foldl_cons] at h ⊢
+    have inv' : NbrInv (t.deadOne w).1 := nbrInv_step inv (.dead w)
+    obtain ⟨hd, hp⟩ := ih _ _ inv' h
+    have h2 : d = false ∧ (t.deadOne w).2 = false := by
+      cases d <;> cases hx : (t.deadOne w).2 <;> simp_all
+    refine ⟨h2.1, ?_⟩
+    rw [hp]
+    exact clean_same_prescription_basic prefixOf inv (.dead w) (fun ws => by intro e; cases e) h2.2
+
+/-- if the code does not start `fibUpdate`, the prescription has not changed -/
+theorem clean_same_prescription (prefixOf : Nat → Nat) {t : Tables} (inv : NbrInv t) (ev : RouterEvent)
+    (hc : (t.stepDirty ev).2 = false) : prescription prefixOf (t.step ev) = prescription prefixOf t := by
+  cases ev with
+  | sweep ws =>
+    simp only [Tables.step, Tables.stepDirty] at hc ⊢
+    exact (sweep_fold_clean prefixOf ws t false inv hc).2
+  | ping w face active => exact clean_same_prescription_basic prefixOf inv _ (fun ws => by intro e; cases e) hc
+  | adv w entries => exact clean_same_prescription_basic prefixOf inv _ (fun ws => by intro e; cases e) hc
+  | dead w => exact clean_same_prescription_basic prefixOf inv _ (fun ws => by intro e; cases e) hc
+  | papply x reset adds rems => exact clean_same_prescription_basic prefixOf inv _ (fun ws => by intro e; cases e) hc
 
 structure RInv (prefixOf : Nat → Nat) (s : RState) : Prop where
   nbr : NbrInv s.t
